@@ -243,15 +243,20 @@ def buildUmap (es : List TuEntry) : Table :=
 
 /-! ### fonts -/
 
+/-- The result of reading an embedded Type 1 program's clear-text header: the `(cid, name)` pairs of
+its `put` keywords in order (see `Model/Type1Header.lean` for the tokeniser path). -/
 structure FontFile where
-  notdefLoop : Bool
   puts : List (Int × Option Name)
 deriving Repr
 
-structure Descriptor where
+/-- A font descriptor; `F` is what stands for the embedded font program (`FontFile` after the header has
+been read, `RawFontFile` = the stream bytes before). -/
+structure DescriptorOf (F : Type) where
   missingWidth : Option Rat
-  fontFile : Option FontFile
+  fontFile : Option F
 deriving Repr
+
+abbrev Descriptor := DescriptorOf FontFile
 
 inductive EncSpec where
   | absent
@@ -260,16 +265,18 @@ inductive EncSpec where
 deriving Repr
 
 /-- The entries of a font dictionary that the property talks about. -/
-structure FontDict where
+structure FontDictOf (F : Type) where
   isType3 : Bool                     -- Subtype Type3; Type1, MMType1, TrueType, absent, unknown are all PDFType1Font
   baseFont : Option String
   enc : EncSpec
   toUnicode : Option (List TuEntry)
   firstChar : Option Int
   widths : Option (List Rat)
-  desc : Option Descriptor
+  desc : Option (DescriptorOf F)
   fontMatrix : Matrix
 deriving Repr
+
+abbrev FontDict := FontDictOf FontFile
 
 /-- What a constructed `PDFSimpleFont` keeps. -/
 structure Font where
@@ -311,9 +318,8 @@ def putsEncoding (gl : GlyphList) : Table → List (Int × Option Name) → Tabl
     | some u => putsEncoding gl ((cid, u) :: t) rest
     | none => putsEncoding gl (tpop t cid) rest
 
-/-- `0 1 255 {1 index exch /.notdef put} for` is scanned as ONE `put` of `/.notdef` under key 1. -/
-def builtinEncoding (gl : GlyphList) (ff : FontFile) : Table :=
-  putsEncoding gl [] ((if ff.notdefLoop then [((1 : Int), some ['.', 'n', 'o', 't', 'd', 'e', 'f'])] else []) ++ ff.puts)
+/-- `Type1FontHeaderParser.get_encoding`: the dict built from the results of the `put` keywords. -/
+def builtinEncoding (gl : GlyphList) (ff : FontFile) : Table := putsEncoding gl [] ff.puts
 
 /-- `PDFSimpleFont.__init__`: the encoding part. -/
 def specEncoding (gl : GlyphList) (db : EncDB) : EncSpec → Table
@@ -321,7 +327,7 @@ def specEncoding (gl : GlyphList) (db : EncDB) : EncSpec → Table
   | .named n => getEncoding gl db n []
   | .dict base diff => getEncoding gl db (base.getD "StandardEncoding") diff
 
-def descMissingWidth (d : Option Descriptor) : Rat :=
+def descMissingWidth {F : Type} (d : Option (DescriptorOf F)) : Rat :=
   match d with
   | some d => d.missingWidth.getD 0
   | none => 0
